@@ -153,7 +153,7 @@ def declarations(text):
                 decls.append(tuple(stack.pop()))
         else:
             cur.append(t)
-            if t == ";" and cur[0] in ("schema", "use", "reference"):
+            if t == ";" and cur[0] in ("schema", "use", "reference", "end_schema"):
                 decls.append(tuple(cur))
                 cur = []
         i += 1
@@ -161,6 +161,14 @@ def declarations(text):
         decls.append(tuple(rest))
     if cur:
         decls.append(tuple(cur))
+    # every declaration belongs to the schema it stands in (a file may hold several schemas, printed in another order)
+    owned = []
+    sch = "?"
+    for d in decls:
+        if d and d[0] == "schema" and len(d) > 1:
+            sch = d[1]
+        owned.append(("in", sch) + d)
+    decls = owned
     return sorted(decls)
 
 
@@ -333,7 +341,12 @@ def main(tier, seed):
                 open(cat, "w", encoding="latin-1").write(printed)
                 rc1, o1, e1 = sh([chk, cat], timeout=300)
                 if rc1 != 0:
-                    what = "the output of exppp %s is rejected by the parser: %s" % (" ".join(opts), (o1 + e1).strip().split("\n")[0][-160:])
+                    emsgs = [l for l in (o1 + e1).split("\n") if "ERROR" in l]
+                    what = "the output of exppp %s is rejected by the parser: %s" % (" ".join(opts), (emsgs or [(o1 + e1).strip().split("\n")[0]])[0][-160:])
+                    # a name imported under an alias (REFERENCE FROM s (x AS y)) printed with its original name
+                    und = [re.search(r"undefined (?:type|entity|object) (\w+)", l) for l in emsgs]
+                    if emsgs and all(m_ and re.search(r"\b%s\s+AS\s+\w+" % re.escape(m_.group(1)), text, re.I) for m_ in und):
+                        sig_split = "renamed_import_printed_with_original_name"
                 else:
                     da, db = declarations(text), declarations(printed)
                     if da != db:
@@ -373,8 +386,8 @@ def main(tier, seed):
             if what:
                 oracle_fail += 1
                 res.violation(what, {"input_file": save("c07-%s.exp" % tag, text), "replay": "%s %s <file>" % (exppp, " ".join(opts))},
-                              signature=(sig_split if "again changes it" in what else None))
-                if not ("again changes it" in what and sig_split):
+                              signature=(sig_split if ("again changes it" in what or sig_split == "renamed_import_printed_with_original_name") else None))
+                if not (sig_split and ("again changes it" in what or sig_split == "renamed_import_printed_with_original_name")):
                     break
         if not keep:
             shutil.rmtree(d, ignore_errors=True)
@@ -448,6 +461,17 @@ def main(tier, seed):
                 res.violation("reading exppp's text '%s' without operator precedence (ExpParse.v) gives %s, the flattened source tree is %s" %
                               (" ".join(got), lines2[1] if len(lines2) > 1 else "?", lines2[0] if lines2 else "?"),
                               {"input_file": save("c07-rich-%d.exp" % k, text), "theorem_or_correspondence": "correspondence C07: coq/ExpParse.v parse vs exppp output"}, found_input=False)
+    # declarations: every form of type (widths, FIXED, precision, bounds, UNIQUE / OPTIONAL elements, nested aggregates, selects
+    # of selects), entity header (AND / ANDOR nesting, ABSTRACT, several supertypes), redeclared and derived-redeclared
+    # attributes, INVERSE with and without bounds, UNIQUE over several attributes, GENERIC / AGGREGATE parameters with labels,
+    # grouped parameters, VAR, procedure calls, qualified targets, RETURN without value, a rule over two entities, USE /
+    # REFERENCE with AS, two schemas in one file
+    dpath = os.path.join(VERIF, "corpus", "C07", "decl.exp")
+    if os.path.exists(dpath):
+        hist["declaration_schema"] = 1
+        dtext = open(dpath).read()
+        roundtrip("decl", dtext, lengths[:1], "rich")         # with an aliased import (open finding)
+        roundtrip("decl_noalias", dtext.replace("helper_e AS hlp", "helper_e").replace("b1 : hlp;", "b1 : helper_e;"), lengths, "rich")
     # string literals with apostrophes, dots and long dot-free stretches at every line length
     STR_SCHEMA = ("SCHEMA strs;\nENTITY e;\n nm : STRING;\nWHERE\n"
                   " w1 : nm <> 'the owner''s name of this product''s category is not the owner''s own idea of a name';\n"
